@@ -143,5 +143,28 @@ spec fn lens_match(range: ChunkRange, item: CacheItem, hdr: Seq<u32>, given: Seq
         }
 //@ end
 
+
+// ---- `CacheFileHeader::deserialize` on ANY bytes: no panic (C12: planted / damaged files never cause a panic) -------------------
+// The functional contract (Ok only for strictly increasing offsets from 0, parsed from the file) is in U-CACHESLICE and depends on
+// the shape of the parsing loop.  This second extraction carries only what must survive any restructuring of that loop: every
+// index / unwrap / arithmetic obligation of the body, for arbitrary reader contents — no loop invariant, so nothing here refers to
+// the loop's variables.  (R4v turns a `windows(K).any(..)` chain, which Verus cannot take, into the equivalent while loop.)
+#[verifier::external_body]
+fn read_u32s<R: Read>(reader: &mut R, vs: &mut Vec<u32>) -> (r: Result<(), ChunkCacheError>)
+    ensures final(reader).bytes() == old(reader).bytes(), final(vs)@.len() == old(vs)@.len(), r is Err ==> r matches Err(ChunkCacheError::IO),
+{ unimplemented!() }
+impl CacheFileHeader {
+    // R12 generic narrowing: `new<T: Into<Vec<u32>>>` at the instantiation used (`T = Vec<u32>`, `into` is the identity)
+    fn new(chunk_byte_indices: Vec<u32>) -> (r: Self) ensures r.chunk_byte_indices == chunk_byte_indices { Self { chunk_byte_indices } }
+//@ extract chunk_cache/src/disk/cache_file_header.rs in `impl CacheFileHeader` fn deserialize
+//@ ret r
+//@ rules cacheacct.R4v
+//@ optsubst `std::io::SeekFrom::Start(0)` => `SeekFrom::Start(0)` :: R11 stub type path
+//@ prefix
+    #[verifier::exec_allows_no_decreases_clause]
+//@ contract
+        ensures r is Ok || r is Err,    // the content of this contract is the body's own panic obligations (index, unwrap, arithmetic), for any file content
+//@ end
+}
 } // verus!
 fn main() {}
